@@ -114,7 +114,7 @@ class StepMonitor(object):
             self._set_breach('step_degree', 'degree sequence changed at swap %d (a,b,c,d=%s)' % (self.swaps, (s.get('a'), s.get('b'), s.get('c'), s.get('d'))))
         elif not np.array_equal(G.weights_multiset(R), st['ms']):
             self._set_breach('step_multiset', 'weight multiset changed at swap %d' % self.swaps)
-        elif not self.directed and not np.array_equal(R, R.T):
+        elif not self.directed and not np.allclose(R, R.T):
             self._set_breach('step_symmetry', 'matrix asymmetric after swap %d' % self.swaps)
         else:
             i, j = s.get('i'), s.get('j')
@@ -191,7 +191,7 @@ def judge_c01(routine, W, p, out, mon):
         v.append(('multiset', 'weight multiset changed: %s -> %s' % (G.weights_multiset(W).tolist()[:12], G.weights_multiset(R).tolist()[:12])))
     if np.any(np.diag(R) != np.diag(W)):
         v.append(('diagonal', 'diagonal changed: %s' % np.diag(R).tolist()))
-    if not directed and not np.array_equal(R, R.T):
+    if not directed and not (np.array_equal(R, R.T) if np.array_equal(W, W.T) else np.allclose(R, R.T)):
         v.append(('symmetry', 'undirected routine returned an asymmetric matrix'))
     if directed and not np.allclose(R.astype(np.float64).sum(axis=1), W.astype(np.float64).sum(axis=1), rtol=1e-9, atol=1e-9):  # summed in float64 whatever the container
         v.append(('out_strength', 'out-strength changed: %s -> %s' % (W.sum(1).tolist(), R.sum(1).tolist())))
@@ -374,7 +374,16 @@ def gen_case(sub, routines, scn_id, connected=False, nmax=12, invalid_frac=0.0):
             # disconnect: cut a node off (or split in two blocks)
             x = rnd.randrange(n)
             W = W.copy()
-            if rnd.random() < 0.5:
+            y = rnd.random()
+            if y < 0.2 and n >= 5:
+                # a clique on n-1 nodes plus one isolated node: the densest disconnected network there is
+                wts = W[W != 0]
+                for a in range(n):
+                    for b in range(a + 1, n):
+                        W[a, b] = W[b, a] = (W[a, b] if W[a, b] != 0 else float(wts[rnd.randrange(len(wts))]))
+                W[x, :] = 0
+                W[:, x] = 0
+            elif y < 0.6:
                 W[x, :] = 0
                 W[:, x] = 0
             else:
@@ -409,6 +418,13 @@ def gen_case(sub, routines, scn_id, connected=False, nmax=12, invalid_frac=0.0):
                 D = np.round(D)  # ties in the lattice condition
             if not directed:
                 D = (D + D.T) / 2
+            x = rnd.random()
+            if x < 0.15:
+                D = np.round(D).astype(np.int64)  # integer distances (e.g. a ring-distance table)
+                if not directed:
+                    D = np.maximum(D, D.T)
+            elif x < 0.25:
+                D = D.astype(np.float32)
             params['D'] = enc(D)
     elif routine == 'randomize_graph_partial_und':
         params['maxswap'] = rnd.choice((0, 1, 2, 3, 5, 8, 10))
@@ -435,6 +451,12 @@ def gen_case(sub, routines, scn_id, connected=False, nmax=12, invalid_frac=0.0):
         W = W.astype(bool)
     elif r < 0.26:
         W = W.astype(np.float32)
+    if routine in ('randmio_und', 'latmio_und') and meta.get('wkind') == 'float' and not expect_reject and rnd.random() < 0.06:
+        # symmetric only up to the tolerance of the routine's own np.allclose gate (two estimates of one undirected weight)
+        ii, jj = np.nonzero(np.triu(W, 1))
+        for x in rnd.sample(range(len(ii)), min(len(ii), rnd.randint(1, 3))):
+            W[ii[x], jj[x]] *= (1 + rnd.choice((1e-7, -1e-7, 3e-6)))
+        meta['nearsym'] = True
     if routine in LAT and meta.get('wkind') == 'int' and not expect_reject and rnd.random() < 0.05:
         # weights AND distances held in 8-bit integers: the lattice condition is then evaluated in int8 (products up to 135 wrap)
         W = W.astype(np.int8)
